@@ -136,7 +136,7 @@ def run_c19(ctx):
                 continue
             jobs.append(('roundtrip', size, style, rng.choice(['random', 'zero', 'text']), password(rng)))
     # ---- tamper
-    for size in ([0, 1, 40, B + 3] if not ctx.thorough else [0, 1, 16, 40, B - 16, B + 3, 2 * B + 1]):
+    for size in ([0, 1, 40, B - 16, B + 3] if not ctx.thorough else [0, 1, 16, 40, B - 16, B + 3, 2 * B - 32, 2 * B + 1]):
         jobs.append(('tamper', size, password(rng)))
     # ---- I/O faults
     for size in [0, 100, 3 * B + 5]:
@@ -479,6 +479,18 @@ def sumcheck(ctx, cli, rng):
         check(sums + 'not a checksum line\n', 'malformed-extra-line', False, names)
         check(sums + lines[0][:62] + '  a.bin\n', 'short-digest', False, names)
         check(sums + lines[0][:64] + '\n', 'missing-filename', False, names)
+        # several check files on one command line: a failure in any of them must make the exit status non-zero
+        with open(os.path.join(d, 'good.sums'), 'w') as f:
+            f.write(sums)
+        with open(os.path.join(d, 'bad.sums'), 'w') as f:
+            f.write('\n'.join([lines[0], bad] + lines[2:]) + '\n')
+        for order in (['bad.sums', 'good.sums'], ['good.sums', 'bad.sums'], ['good.sums', 'nonexistent.sums'], ['nonexistent.sums', 'good.sums']):
+            rc, out, err, _ = cli.run([cli.sum, flag, '-c'] + order, d)
+            if rc == 0:
+                vio(ctx, cli, 'C19', 'asconsum:check:exit-status:multiple-check-files', alg=alg, order=order, exit=rc)
+        rc, out, err, _ = cli.run([cli.sum, flag, '-c', 'good.sums', 'good.sums'], d)
+        if rc != 0:
+            vio(ctx, cli, 'C19', 'asconsum:check:exit-status:two-good-check-files', alg=alg, exit=rc)
         check('', 'empty-check-file', False, [])
         check('\n\n', 'only-blank-lines', False, [])
     if len(ctx.samples) < 6:
